@@ -9,8 +9,11 @@ import sys
 import time
 
 ROOT = os.path.dirname(os.path.dirname(os.path.dirname(os.path.abspath(__file__))))
-EVIDENCE_DIR = os.path.join(ROOT, 'evidence')
-REPLAY_DIR = os.path.join(ROOT, 'replay')
+# (VERIF_EVIDENCE_DIR: where a run against a deliberately changed copy of the repository - tools_seeded_all.py, tools_mutants.sh -
+#  puts its evidence and replay files, so that it never overwrites the evidence of the real tree)
+_alt = os.environ.get('VERIF_EVIDENCE_DIR')
+EVIDENCE_DIR = _alt or os.path.join(ROOT, 'evidence')
+REPLAY_DIR = os.path.join(_alt, 'replay') if _alt else os.path.join(ROOT, 'replay')
 FINDINGS_FILE = os.path.join(ROOT, 'known_findings.json')
 
 
